@@ -3,6 +3,8 @@ CONSTANTS
   MaxOps = 4
   KeyIgnoresDetail = FALSE
   SharesResult = FALSE
+  ReturnsInput = FALSE
   Emit = FALSE
 INVARIANT HistoryFree
+INVARIANT ResultsIndependentOfInputs
 CHECK_DEADLOCK FALSE
